@@ -7,13 +7,15 @@ namespace Sim
     number of unread bytes left. -/
 def qscan (delim : Byte) : List Byte → List Byte → Nat → Byte → List Byte × Bool × Option RErr × Nat
   | [], acc, _, _ => (acc, true, some .eof, 0)
-  | [_], acc, _, _ => (acc, true, some .eof, 1)          -- the last byte is never examined
+  | [b], acc, qc, _ =>          -- the last byte is examined only for "delimiter after the closing quote"
+    if qc % 2 != 0 && b == delim then (acc, false, none, 0) else (acc, true, some .eof, 1)
   | b :: b' :: rest, acc, qc, p =>
     if b == delim then
       (if qc % 2 != 0 then (acc, false, none, (b' :: rest).length) else qscan delim (b' :: rest) (acc ++ [p]) 0 b')
     else if b == LF then
       (if qc % 2 != 0 then (acc, true, none, (b' :: rest).length) else qscan delim (b' :: rest) (acc ++ [p]) 0 b')
-    else if b == CR then qscan delim (b' :: rest) acc qc p
+    else if b == CR then
+      (if qc % 2 != 0 then qscan delim (b' :: rest) acc qc p else qscan delim (b' :: rest) (acc ++ [p]) 0 b')
     else if b == QUOTE then
       (if (qc + 1) % 2 == 1 then qscan delim (b' :: rest) acc (qc + 1) p else qscan delim (b' :: rest) (acc ++ [p]) 0 b')
     else qscan delim (b' :: rest) (acc ++ [p]) 0 b'
@@ -49,9 +51,23 @@ theorem quoted_eq_qscan (delim : Byte) (fuel : Nat) : ∀ (s : St) (start w qc :
       | cons x xs =>
         cases xs with
         | nil =>
-          have : s.cursor + 1 = s.data.length := by
+          have hl1 : s.cursor + 1 = s.data.length := by
             have := congrArg List.length hd; simp at this; omega
-          simp [qscan, St.slice, hacc]; omega
+          have hlt : s.cursor < s.data.length := by omega
+          have hx : s.data[s.cursor]? = some x := by
+            have := congrArg (·[0]?) hd; simpa using this
+          by_cases hc : (qc % 2 != 0 && x == delim) = true
+          · have hc' : (qc % 2 != 0 && decide (s.cursor < s.data.length) && s.data[s.cursor]? == some delim) = true := by
+              simp only [Bool.and_eq_true, decide_eq_true_eq] at hc ⊢
+              exact ⟨⟨hc.1, hlt⟩, by rw [hx]; simpa using hc.2⟩
+            simp only [hc', hc, qscan, ↓reduceIte, St.slice, hacc]
+            congr 3 <;> omega
+          · have hc' : ¬ (qc % 2 != 0 && decide (s.cursor < s.data.length) && s.data[s.cursor]? == some delim) = true := by
+              intro h
+              simp only [Bool.and_eq_true, decide_eq_true_eq] at hc h
+              exact hc ⟨h.1.1, by have := h.2; rw [hx] at this; simpa using this⟩
+            simp only [hc', hc, qscan, Bool.false_eq_true, ↓reduceIte, St.slice, hacc]
+            congr 3; omega
         | cons y ys => rw [hd] at hlen; simp at hlen
     · simp only [hE, ↓reduceIte]
       have h2 : s.cursor + 1 < s.data.length := by omega
@@ -89,7 +105,7 @@ theorem quoted_eq_qscan (delim : Byte) (fuel : Nat) : ∀ (s : St) (start w qc :
         have hpw : s.data[w]? = some p := hp hwl
         have hacc' : ∀ dta : List Byte, dta.take (w + 1) = s.data.take (w + 1) → (dta.take (w + 1)).drop start = acc ++ [p] := by
           intro dta hdt
-          rw [hdt, List.take_succ, hpw]
+          rw [hdt, List.take_add_one, hpw]
           simp only [Option.toList_some, List.drop_append]
           rw [hacc]
           have : start - (s.data.take w).length = 0 := by simp; omega
@@ -143,7 +159,10 @@ theorem quoted_eq_qscan (delim : Byte) (fuel : Nat) : ∀ (s : St) (start w qc :
           · simp only [c2, Bool.false_eq_true, ↓reduceIte]; exact hkeep
         · simp only [c3, Bool.false_eq_true, ↓reduceIte]
           by_cases c4 : (ch == CR) = true
-          · simp only [c4, ↓reduceIte]; exact hskip qc
+          · simp only [c4, ↓reduceIte]
+            by_cases c2 : (qc % 2 != 0) = true
+            · simp only [c2, ↓reduceIte]; exact hskip qc
+            · simp only [c2, Bool.false_eq_true, ↓reduceIte]; exact hkeep
           · simp only [c4, Bool.false_eq_true, ↓reduceIte]
             by_cases c5 : (ch == QUOTE) = true
             · simp only [c5, ↓reduceIte]
@@ -160,19 +179,15 @@ def escape : List Byte → List Byte
 
 def hd (l : List Byte) : Byte := l.headD 0
 
-/-- the functional scanner walks through escaped content and accumulates exactly the content -/
-theorem qscan_content (delim : Byte) (hdq : (QUOTE == delim) = false) : ∀ (content tail acc : List Byte), CR ∉ content → tail ≠ [] →
+/-- the functional scanner walks through escaped content and accumulates exactly the content —
+    carriage returns included (they are skipped only after a closing quote) -/
+theorem qscan_content (delim : Byte) (hdq : (QUOTE == delim) = false) : ∀ (content tail acc : List Byte), tail ≠ [] →
     qscan delim (escape content ++ tail) acc 0 (hd (escape content ++ tail)) = qscan delim tail (acc ++ content) 0 (hd tail) := by
   intro content
   induction content with
-  | nil => intro tail acc _ _; simp [escape]
+  | nil => intro tail acc _; simp [escape]
   | cons b bs ih =>
-    intro tail acc hcr ht
-    have hb : (b == CR) = false := by
-      cases hv : b == CR with
-      | false => rfl
-      | true => exact absurd (by simp at hv; simp [hv]) hcr
-    have hcr' : CR ∉ bs := fun h => hcr (List.mem_cons_of_mem _ h)
+    intro tail acc ht
     -- the rest after this content byte is non-empty
     obtain ⟨r0, rs, hr⟩ : ∃ r0 rs, escape bs ++ tail = r0 :: rs := by
       cases h : escape bs ++ tail with
@@ -190,7 +205,7 @@ theorem qscan_content (delim : Byte) (hdq : (QUOTE == delim) = false) : ∀ (con
       have step2 : qscan delim (QUOTE :: r0 :: rs) acc 1 QUOTE = qscan delim (r0 :: rs) (acc ++ [QUOTE]) 0 r0 := by
         simp [qscan, h34, QUOTE, LF, CR]
       rw [step1, step2, ← hr]
-      have := ih tail (acc ++ [QUOTE]) hcr' ht
+      have := ih tail (acc ++ [QUOTE]) ht
       rw [hr] at this ⊢
       simp only [hd, List.headD_cons] at this
       rw [this]; simp
@@ -204,12 +219,16 @@ theorem qscan_content (delim : Byte) (hdq : (QUOTE == delim) = false) : ∀ (con
         · simp only [d, Bool.false_eq_true, ↓reduceIte]
           by_cases l : (b == LF) = true
           · simp [l]
-          · simp [l, hb, hq']
+          · simp only [l, Bool.false_eq_true, ↓reduceIte]
+            by_cases c : (b == CR) = true
+            · simp [c]
+            · simp [c, hq']
       rw [step, ← hr]
-      have := ih tail (acc ++ [b]) hcr' ht
+      have := ih tail (acc ++ [b]) ht
       rw [hr] at this ⊢
       simp only [hd, List.headD_cons] at this
       rw [this]; simp
 
+#print axioms quoted_eq_qscan
 #print axioms qscan_content
 end Sim
